@@ -86,6 +86,14 @@ def run(chk):
             chk.fail("BH number and mass per bin equal those of the full model evolved to the same age with full retention", label,
                      dict(max_dN=float(dN.max()), max_dM=float(dM.max()), N_short=float(popr.N.sum()), N_full=float(full.Nr.BH[0].sum())),
                      bh_progenitors_span_imf_segments=bool(spans))
+        # the same with an IMF object whose own N0 differs from the N0 argument (default N0 = 1, and from_M0)
+        for imf2, lab in ((masses.PowerLawIMF(cf["mb"], cf["a"]), "IMF(N0=1)"), (masses.PowerLawIMF.from_M0(cf["mb"], cf["a"], 3.3e5), "IMF.from_M0")):
+            with warnings.catch_warnings():
+                warnings.simplefilter("ignore")
+                p2 = emf.InitialBHPopulation.from_IMF(imf2, cf["nbins"], cf["feh"], N0=N0, natal_kicks=False, **kw)
+            if np.any(np.abs(p2.N - popr.N) > 1e-6 * max(float(popr.N.sum()), 1.0)) or abs(p2.Ns_lost - popr.Ns_lost) > 1e-6 * max(popr.Ns_lost, 1.0):
+                chk.fail("BH number and mass per bin equal those of the full model (IMF object whose own N0 differs from the N0 argument)",
+                         dict(label, imf=lab), dict(N_BH=float(p2.N.sum()), expected=float(popr.N.sum()), Ns_lost=float(p2.Ns_lost)))
         # stellar losses vs the IMF above the final turn-off mass (closed form, segment by segment)
         A = [float(x) for x in imf._A_comps]
         nabove = mabove = 0.0
